@@ -11,6 +11,7 @@ import (
 	"runtime/debug"
 	"sort"
 	"strings"
+	"sync"
 	"sync/atomic"
 
 	"github.com/xinchentechnote/fin-protoc/internal/model"
@@ -18,12 +19,25 @@ import (
 	"github.com/xinchentechnote/fin-protoc/verifharness/pbt"
 )
 
+var devNull *os.File
+var quietMu sync.Mutex
+
 func init() {
 	_ = pbt.Out()
-	// the parser and WriteCodeToFile chat on stdout; keep the test output readable
-	if dn, err := os.OpenFile(os.DevNull, os.O_WRONLY, 0); err == nil {
-		os.Stdout = dn
+	devNull, _ = os.OpenFile(os.DevNull, os.O_WRONLY, 0)
+}
+
+// quiet runs f with os.Stdout pointing at /dev/null: the parser chats on stdout on every call.
+// Only the calls into fin-protoc are silenced, the test framework's own output stays visible.
+func quiet(f func()) {
+	quietMu.Lock()
+	defer quietMu.Unlock()
+	saved := os.Stdout
+	if devNull != nil {
+		os.Stdout = devNull
 	}
+	defer func() { os.Stdout = saved }()
+	f()
 }
 
 // Langs in the order cmd.Compile runs the generators.
@@ -86,7 +100,8 @@ func PanicSite(stack string) string {
 	return "unknown"
 }
 
-func guard(phase string, res *Result, f func()) {
+func guard(phase string, res *Result, f0 func()) {
+	f := func() { quiet(f0) }
 	defer func() {
 		if r := recover(); r != nil {
 			st := string(debug.Stack())
